@@ -167,6 +167,11 @@ func cmdCheck(args []string) int {
 	knownHit := map[string]bool{}
 	reported := map[string]bool{}
 	replayDir := filepath.Join(o.verif, "replays")
+	if old, _ := filepath.Glob(filepath.Join(replayDir, o.prop+"_*")); len(old) > 0 {
+		for _, f := range old {
+			os.Remove(f)
+		}
+	}
 	var samples []any
 	backends := map[string]int{}
 	for _, key := range order {
@@ -355,14 +360,17 @@ func writeReplay(o *options, dir, name string, ob *Obligation, out *runOutput) r
 	if ob.Script != "" {
 		os.WriteFile(base+".smt2", []byte(ob.Script), 0o644)
 		rec["smt2"] = base + ".smt2"
-		model, ok := findModel(ob.Script, o.timeout)
+		model, vals, ok := findModelProbes(ob.Script, ob.Probes, o.timeout)
 		if ok {
-			rec["model_excerpt"] = trunc(model, 8000)
-			if rr := tryReplay(o, name, ob, model, base); rr != nil {
+			rec["model_excerpt"] = trunc(model, 4000)
+			rec["probe_values"] = vals
+			if rr := runReplayDriver(o, name, ob, vals, base); rr != nil {
 				rec["replay"] = rr
 				if b, _ := rr["reproduced"].(bool); b {
 					res.reproduced = true
 				}
+			} else {
+				rec["replay"] = "no replay driver registered for this function"
 			}
 		} else {
 			rec["model_excerpt"] = "no model: " + trunc(model, 500)
